@@ -2,6 +2,6 @@
 # thorough tier of every claimed check on the unchanged tree, 4 at a time (coqchk runs outside the build lock);
 # one log per property under work/thorough/, summary at the end; exit 1 if any check fails
 cd /verif; mkdir -p work/thorough
-cat checks/ready.txt | tr ' ' '\n' | grep . | xargs -P 4 -I{} sh -c './verif.py check {} --tier thorough > work/thorough/{}.log 2>&1; echo "{} exit=$?"' | tee work/thorough/summary.txt
+cat checks/ready.txt | tr ' ' '\n' | grep . | xargs -P 5 -I{} sh -c './verif.py check {} --tier thorough > work/thorough/{}.log 2>&1; echo "{} exit=$?"' | tee work/thorough/summary.txt
 for c in $(cat checks/ready.txt); do tail -1 work/thorough/$c.log; done
 ! grep -v "exit=0" work/thorough/summary.txt | grep -q .
